@@ -71,6 +71,12 @@ func c19Check(c c19Case) error {
 		if p.em.Len() > p.em.Cap() || p.em.Len() > c.Cap {
 			return fmt.Errorf("after op %d: Len() = %d exceeds the capacity %d (Cap() = %d)", i, p.em.Len(), c.Cap, p.em.Cap())
 		}
+		// inside the window the bytes behind the emitted ones are untouched as well
+		for j := p.em.Len(); j < c.Cap && j < p.em.Len()+16; j++ {
+			if target[j] != 0xC3 {
+				return fmt.Errorf("after op %d %v: byte %d of the target buffer, behind the %d emitted bytes, changed from c3 to %02x", i, o, j, p.em.Len(), target[j])
+			}
+		}
 		for j := 0; j < 8; j++ {
 			if big[j] != 0xC3 || big[8+c.Cap+j] != 0xC3 {
 				return fmt.Errorf("after op %d %v: a byte outside the %d-byte target buffer was written (the target is a window into a larger array)", i, o, c.Cap)
@@ -96,7 +102,30 @@ func c19Check(c c19Case) error {
 	total := needOf(c.Ops) + 8
 	dry := &emPair{em: asm.NewEmitter(nil, false), m: asmcat.NewModel(0, true, false)}
 	real := asm.NewEmitter(make([]byte, total), false)
+	// the same drawn part of the calls reaches the dry-run emitter through a dry-run clone that is appended back
+	dryOrig := dry.em
+	dryClone := c.CloneTo > c.CloneFrom && c.CloneTo <= len(c.Ops)
+	dryJoin := func() error {
+		var pan interface{}
+		func() {
+			defer func() { pan = recover() }()
+			dryOrig.Append(dry.em)
+		}()
+		if pan != nil {
+			return fmt.Errorf("dry-run emitter: Append of a dry-run clone failed: %v", pan)
+		}
+		dry.em = dryOrig
+		return nil
+	}
 	for i, o := range c.Ops {
+		if dryClone && i == c.CloneFrom {
+			dry.em = dryOrig.Clone(nil)
+		}
+		if dryClone && i == c.CloneTo {
+			if err := dryJoin(); err != nil {
+				return err
+			}
+		}
 		r1, p1 := asmcat.ApplyReal(real, o)
 		if err := dry.step(i, o); err != nil {
 			return fmt.Errorf("dry-run emitter: %v", err)
@@ -112,6 +141,14 @@ func c19Check(c c19Case) error {
 		}
 		if dry.em.Len() != 0 {
 			return fmt.Errorf("dry-run emitter after op %d: Len() = %d, want 0", i, dry.em.Len())
+		}
+	}
+	if dry.em != dryOrig {
+		if err := dryJoin(); err != nil {
+			return err
+		}
+		if dry.em.PC() != real.PC() || dry.em.Flags() != real.Flags() {
+			return fmt.Errorf("dry-run emitter after appending its clone: PC $%06x flags %02x, an emitter with a buffer has PC $%06x flags %02x", dry.em.PC(), byte(dry.em.Flags()), real.PC(), byte(real.Flags()))
 		}
 	}
 	for _, n := range allLabelNames {
